@@ -52,6 +52,35 @@ pub struct Blackhole {
     pub down: bool,
 }
 
+/// datagram classes of the cleartext tag byte (see `net::classify`)
+#[derive(Clone, Copy, Debug, Hash, PartialEq, Eq, Serialize, Deserialize)]
+pub enum PktKind {
+    Stream,
+    Recovery,
+    Control,
+}
+
+/// which datagram of one direction a targeted fault hits
+#[derive(Clone, Copy, Debug, Hash, PartialEq, Eq, Serialize, Deserialize)]
+pub enum Target {
+    /// the n-th datagram (0-based, send order) of this class in this direction
+    Nth { kind: PktKind, n: u16 },
+    /// the n-th recovery-space packet (n = 0: the first) that carries stream bytes of the k-th
+    /// stream-space packet of this direction again (same stream, overlapping offset range);
+    /// for a k-th packet without payload: the n-th recovery-space packet of the same stream
+    /// sent after it
+    RetxOf { k: u16, n: u16 },
+}
+
+/// a fault addressed by packet class and ordinal instead of by datagram index
+#[derive(Clone, Copy, Debug, Hash, PartialEq, Eq, Serialize, Deserialize)]
+pub struct Targeted {
+    /// client -> server
+    pub up: bool,
+    pub target: Target,
+    pub fault: Fault,
+}
+
 #[derive(Clone, Debug, Default, Hash, PartialEq, Eq, Serialize, Deserialize)]
 pub struct NetCase {
     /// decisions for client -> server datagrams, in send order
@@ -62,6 +91,9 @@ pub struct NetCase {
     /// one fault at the k-th datagram of the run (both directions, send order); used by the
     /// single-fault enumeration
     pub single: Option<(u32, Fault)>,
+    /// faults addressed by (direction, class, ordinal); they override the tapes
+    #[serde(default)]
+    pub targeted: Vec<Targeted>,
 }
 
 #[derive(Clone, Copy, Debug, Hash, PartialEq, Eq, Serialize, Deserialize)]
@@ -93,6 +125,17 @@ pub struct Transfer {
     pub read_drop_at: Option<u32>,
 }
 
+/// request/response dialogue on an open stream: the client writes the header byte and the
+/// first `first` payload bytes of the request WITHOUT finishing, waits for the complete
+/// response (its length is known to the script), writes the rest of the request and only
+/// then finishes; the server reads exactly those 1 + `first` request bytes, writes the whole
+/// response (and ends its writing half as generated), then reads the request to its end.
+#[derive(Clone, Copy, Debug, Hash, PartialEq, Eq, Serialize, Deserialize)]
+pub struct Dialog {
+    /// payload bytes of the request written before the response is awaited (<= req.len)
+    pub first: u32,
+}
+
 #[derive(Clone, Debug, Hash, PartialEq, Eq, Serialize, Deserialize)]
 pub struct StreamCase {
     /// delay between the client's start and `connect`
@@ -107,6 +150,9 @@ pub struct StreamCase {
     /// server: write the response concurrently with reading the request; false: read the
     /// request to EOF first (then "response only after the complete request" is checked)
     pub server_concurrent: bool,
+    /// Some: the dialogue script above replaces the two `*_concurrent` modes
+    #[serde(default)]
+    pub dialog: Option<Dialog>,
 }
 
 #[derive(Clone, Debug, Hash, PartialEq, Eq, Serialize, Deserialize)]
@@ -154,7 +200,8 @@ impl Case {
         vcore::hash_of(&(self.seed, client as u64, stream as u64, resp))
     }
 
-    /// faults stop after a finite number of datagrams / a bounded time
+    /// faults stop after a finite number of datagrams / a bounded time (a targeted fault hits
+    /// one datagram)
     pub fn finite_faults(&self) -> bool {
         !self.net.up.repeat
             && !self.net.down.repeat
